@@ -53,9 +53,11 @@ CHECKS.update({
              "knocked-out problem (reactions chosen by our own rule evaluator) has an optimum, growth = that optimum or NaN, "
              "essential sets = entities whose knocked-out optimum is infeasible or below the threshold, MOMA growth = original "
              "objective at some minimal-adjustment solution (existential, witnessed by the recorded stub primal), model unchanged; "
-             "for every value of the symbolic bounds.",
-        note="Bounded: template T8 (4 reactions, 4 genes) and T9 (forced drain), 1-3 reactions with symbolic bounds. Outside: "
-             "method room / linear room (MILP, bilinear) and quadratic moma (no QP solver); processes>1 is C14. " + NOTE_COMMON,
+             "for every value of the symbolic bounds. Pre-states: the model as built, a gene the user knocked out earlier (counted "
+             "absent by the oracle), an uncapped route (knocked-out problems unbounded: NaN, not optimal); explicitly empty lists "
+             "(no rows); essential searches also on a model without objective (threshold 0: infeasible knock-outs only).",
+        note="Bounded: template T8 (4 reactions, 4 genes), T9 / T11 (forced drain), 1-3 reactions with symbolic bounds. Outside: "
+             "method room / linear room in the deletion functions and quadratic moma (no QP solver); processes>1 is C14. " + NOTE_COMMON,
         ref="4/C06"),
     "C07": dict(
         text="Bounded symbolic execution of Gene.knock_out / knock_out_model_genes / Reaction.knock_out inside and outside (nested) "
@@ -238,7 +240,10 @@ CHECKS.update({
              "metabolite exactly once on the side given by the sign of flux x coefficient, listed flux = flux x coefficient, objective "
              "value, production = consumption, percentages sum to one (the only nonlinear queries), FVA ranges scaled and swapped like the "
              "flux. With the solution defaulted to pFBA (real pfba on the stub): objective value = optimum of the model as it stands, "
-             "listed fluxes belong to one of its optima - also after an earlier summary and a stoichiometry edit.",
+             "listed fluxes belong to one of its optima - also after an earlier summary and a stoichiometry edit. summary(fva=<fraction>): "
+             "shown ranges = oracle FVA ranges at that fraction scaled by the boundary coefficient (sound and attained, equal bounds "
+             "included). Given solutions of status optimal or not; an earlier summary built from the very same solution and frame "
+             "(caller's frame proved unchanged); two boundary reactions on one metabolite; a metabolite without reactions.",
         note="Rendering (to_string / to_html / to_frame / _repr_html_; three times, names on and off; must leave the summary's tables "
              "unchanged) formats floats and is exercised on the concrete witness of every explored path class, not symbolically. Fluxes are 0 or at least 1e-3 in magnitude (display cutoff discipline). "
              + NOTE_COMMON, ref="4/C20"),
